@@ -215,7 +215,7 @@ PROPS["C05"] = {
             "variables, the pattern instantiated bottom-up with eg.lookup only must be represented, each multi-pattern equation must hold between the bound classes, and a fingerprint (progress, "
             "nodes, ids, class slots, equality matrix of all handles) must be unchanged by matching. Non-trivial = distinct history with >=1 validated match of a pattern with >=2 nodes / >=2 equations.",
     "assumptions": ["instantiation uses only EGraph::lookup, so 'represented without inserting' is decided by the crate's own lookup, cross-checked by C09"],
-    "quick": [{"variant": "default", "cases": 16000, "timeout": 600}],
+    "quick": [{"variant": "default", "cases": 160000, "timeout": 600}],
     "thorough": [{"variant": "default", "cases": 2400000, "timeout": 3000}, {"variant": "checks", "cases": 240000, "timeout": 3000}],
     "floors": {"any": {"matches_validated": 10000, "multimatches_validated": 2000, "patterns_with_matches": 3000, "multipatterns_with_matches": 1000}},
 }
